@@ -61,12 +61,13 @@ class Tokenizer:
                 tok = self._stack.pop()
             else:
                 tok = self._next_raw()
+            # remember the text of every line seen, blank and comment-only ones included
+            if not self._path and tok.start[0] not in self._lines:
+                self._lines[tok.start[0]] = tok.line
             if self.is_blank(tok):
                 continue
 
             self._tokens.append(tok)
-            if not self._path and tok.start[0] not in self._lines:
-                self._lines[tok.start[0]] = tok.line
         return self._tokens[self._index]
 
     def is_blank(self, tok: TokenInfo) -> bool:
@@ -196,7 +197,7 @@ class Tokenizer:
                         if seen == n:
                             break
 
-        return [lines[n] for n in line_numbers]
+        return [lines.get(n, "") for n in line_numbers]
 
     def mark(self) -> Mark:
         return self._index
